@@ -950,6 +950,7 @@ def run(ctx):
         ctx.notes.append(f"observation: AbstractPathModelDAG._apply_safety_optimizations (never called by the pinned constructors) raised TypeError "
                          f"('dict' object is not callable: stDAG.nodes_reaching is a property) in {n_dormant} explicit calls; on the DAG side only "
                          "safe_lists and paths_to_fix are certified")
+    import e3dom; e3dom.run_dom_e3(ctx, ctx.budget(250, 5000))   # dominator route of the cyclic class against the extracted DomAlg model
 
 
 def replay(ctx, body):
